@@ -29,17 +29,18 @@ LEVEL = "exploration"
 METRIC_SETS = [("LINE",), ("BRANCH", "LINE"), ("BRANCH", "LINE", "CHECKED")]
 
 
-def _sorted(pairs):
-    return sorted(pairs, key=lambda p: (p[0], -1 if p[1] is None else p[1]))
-
-
 def _sorted_lines(lines):
-    return sorted(lines, key=lambda l: -1 if l is None else l)
+    return sorted(lines, key=lambda l: -1 if not isinstance(l, int) else l)
 
 
 class Visitor:
+    """Line ids are per (file, line number) -- ``LineMetaData`` equality ignores the code object -- so the unit
+    of comparison is the source line: a line counts as executed when any code object executed it."""
+
     def __init__(self):
-        self.import_pairs = set()
+        self.import_lines = set()
+        self.import_expected = set()
+        self.per_program_outcomes = set()
 
     # ---- helpers
     @staticmethod
@@ -47,48 +48,46 @@ class Visitor:
         from mc.groundtruth import metrics_tag
         return f"C02|{metrics_tag(metrics)}|{op}|{sig}"
 
-    def _compare(self, col, case, rep, metrics, idx, reported_pairs, ev, where):
-        """L1 + L2 for one execution.  ``reported_pairs`` / ``ev.lines`` are {(key, line)}."""
+    @staticmethod
+    def _first_op(case, line, keys=None):
+        """First instruction (offset order, outermost code object first) on ``line``."""
+        for k, ops in case.plain.lineops.items():
+            if keys is not None and k not in keys:
+                continue
+            if line in ops:
+                return case.plain.first_op(k, line)
+        return "no-instruction"
+
+    def _compare(self, col, case, rep, metrics, idx, reported, ev, where):
+        """L1 + L2 for one execution.  ``reported``: set of line numbers; ``ev.lines``: {(key, line)}."""
         from mc import groundtruth as gt
 
-        coverable = rep.coverable()
-        executed = ev.lines
+        coverable = {l for _k, l in rep.coverable()}
+        executed = {l for _k, l in ev.lines}
         expected = executed & coverable
         data = gt.case_data(case, metrics, idx)
         rank = gt.case_rank(case, idx or 0)
         ok = True
-        rep_lines = {l for _k, l in reported_pairs}
-        exp_lines = {l for _k, l in expected}
-
-        def first_op(line, pairs):
-            for k, l in _sorted(pairs):
-                if l == line:
-                    return case.plain.first_op(k, l)
-            return "no-instruction"
-
-        for line in _sorted_lines(rep_lines - exp_lines):
+        for line in _sorted_lines(reported - expected):
             ok = False
-            col.violation(self._fp(metrics, first_op(line, reported_pairs), "line-reported-not-executed"),
+            if not isinstance(line, int) or not 1 <= line <= case.nlines:
+                col.violation(self._fp(metrics, f"line-{line}", "foreign-line"),
+                              f"{case.name} {where}: reported covered line {line!r} is not a line of the module "
+                              f"under test ({case.nlines} lines)", data, rank)
+                continue
+            col.violation(self._fp(metrics, self._first_op(case, line), "line-reported-not-executed"),
                           f"{case.name} {where}: line {line} reported as covered, the interpreter did not "
-                          f"execute it (executed: {sorted({l for _k, l in executed})})", data, rank)
-        for line in _sorted_lines(exp_lines - rep_lines):
+                          f"execute it (executed: {sorted(executed)})", data, rank)
+        for line in _sorted_lines(expected - reported):
             ok = False
-            col.violation(self._fp(metrics, first_op(line, expected), "line-executed-not-reported"),
+            col.violation(self._fp(metrics, self._first_op(case, line, {k for k, l in ev.lines if l == line}),
+                                   "line-executed-not-reported"),
                           f"{case.name} {where}: line {line} executed and coverable but not reported "
-                          f"(reported: {_sorted_lines(rep_lines)})", data, rank)
-        if ok and reported_pairs != expected:
-            for k, l in _sorted(reported_pairs - expected):
-                ok = False
-                col.violation(self._fp(metrics, case.plain.first_op(k, l), "line-reported-not-executed@code-object"),
-                              f"{case.name} {where}: line {l} reported for code object {k[0]}, which did not "
-                              "execute it", data, rank)
-            for k, l in _sorted(expected - reported_pairs):
-                ok = False
-                col.violation(self._fp(metrics, case.plain.first_op(k, l), "line-executed-not-reported@code-object"),
-                              f"{case.name} {where}: line {l} executed in code object {k[0]} but not reported "
-                              "for it", data, rank)
+                          f"(reported: {_sorted_lines(reported)})", data, rank)
         # L2 completeness
-        for k, l in _sorted(executed - coverable):
+        for k, l in sorted(ev.lines):
+            if l in coverable:
+                continue
             ops = [o for o in case.plain.lineops.get(k, {}).get(l, ()) if o not in gt.NO_LINE_OPS]
             kind = "unregistered-code-object" if k not in rep.cid_of_key else (ops[0] if ops else "no-instruction")
             col.violation(self._fp(metrics, kind, "line-not-coverable"),
@@ -103,28 +102,35 @@ class Visitor:
 
         col.count("modules_loaded")
         data = gt.case_data(case, metrics)
+        case.nlines = case.source.count("\n") + 1
         for lid, fname, line in rep.foreign:
             col.violation(self._fp(metrics, "registry", "foreign-line"),
                           f"{case.name}: line id {lid} is registered for file {fname!r} line {line}, "
                           f"not the module under test", data, gt.case_rank(case))
+        for lid, meta in rep.sp.existing_lines.items():
+            line = meta.line_number
+            if not isinstance(line, int) or not 1 <= line <= case.nlines:
+                col.violation(self._fp(metrics, f"line-{line}", "foreign-line"),
+                              f"{case.name}: existing_lines holds a coverable line {line!r} (id {lid}) that is not "
+                              f"a line of the module under test ({case.nlines} lines)", data, gt.case_rank(case))
         for k in rep.cid_of_key:
             if k not in case.plain.by_key:
                 raise gt.GroundTruthError(f"{case.name}: registered code object {k} unknown to the plain compile")
         imp_trace = rep.sut.tracer.import_trace
-        self.import_pairs = rep.covered_pairs(imp_trace)
+        self.import_lines = {l for _k, l in rep.covered_pairs(imp_trace)}
         col.count("evaluations")
         col.count("import_executions")
-        ok, expected = self._compare(col, case, rep, metrics, None, set(self.import_pairs), case.imp, "module body")
+        ok, expected = self._compare(col, case, rep, metrics, None, set(self.import_lines), case.imp, "module body")
         self.import_expected = expected
         if ok:
             self._value(col, case, rep, metrics, None, imp_trace, expected, "module body")
 
-    def _value(self, col, case, rep, metrics, idx, trace, expected_pairs, where):
+    def _value(self, col, case, rep, metrics, idx, trace, expected_lines, where):
         from mc import groundtruth as gt
         import pynguin.ga.fitness_metrics as fm
 
         existing = len(rep.sp.existing_lines)
-        want = 1.0 if existing == 0 else len(expected_pairs) / existing
+        want = 1.0 if existing == 0 else len(expected_lines) / existing
         try:
             got = fm.compute_line_coverage(trace, rep.sp)
         except Exception as exc:  # noqa: BLE001
@@ -132,23 +138,21 @@ class Visitor:
         if not (isinstance(got, float) and abs(got - want) < 1e-12):
             col.violation(self._fp(metrics, "compute_line_coverage", "coverage-value-wrong"),
                           f"{case.name} {where}: compute_line_coverage = {got}, executed coverable lines / "
-                          f"existing lines = {len(expected_pairs)}/{existing}", gt.case_data(case, metrics, idx),
+                          f"existing lines = {len(expected_lines)}/{existing}", gt.case_data(case, metrics, idx),
                           gt.case_rank(case, idx or 0))
 
     def call(self, col, case, rep, metrics, idx, result):
         a_src, b_src, ev = case.inputs[idx]
         trace = result.execution_trace
-        covered = rep.covered_pairs(trace)
-        got_linenos = set(rep.sp.lineids_to_linenos(trace.covered_line_ids))
-        if got_linenos != {l for _k, l in covered}:
-            raise AssertionError("lineids_to_linenos disagrees with the registry")
-        call_pairs = covered - (self.import_pairs - ev.lines)
-        ok, expected = self._compare(col, case, rep, metrics, idx, call_pairs, ev, f"f({a_src}, {b_src})")
+        covered = set(rep.sp.lineids_to_linenos(trace.covered_line_ids))
+        executed = {l for _k, l in ev.lines}
+        call_lines = covered - (self.import_lines - executed)
+        ok, expected = self._compare(col, case, rep, metrics, idx, call_lines, ev, f"f({a_src}, {b_src})")
         if ok:
             self._value(col, case, rep, metrics, idx, trace, expected | self.import_expected,
                         f"f({a_src}, {b_src})")
-        col.distinct("outcomes", tuple(_sorted(expected)))
-        self.per_program_outcomes.add(tuple(_sorted(expected)))
+        col.distinct("outcomes", tuple(sorted(expected)))
+        self.per_program_outcomes.add(tuple(sorted(expected)))
         for k, l in ev.lines:
             col.distinct("first_ops", case.plain.first_op(k, l))
 
@@ -169,7 +173,6 @@ def check_program(col, name, source, meta, metric_sets, scratch, second_oracle, 
         col.note("oracle_disagreement_example",
                  f"{name} f({a}, {b}): monitoring-only {mon_only}, settrace-only {set_only}")
     v = Visitor()
-    v.per_program_outcomes = set()
     gt.drive(col, case, metric_sets, scratch, v, "C02")
     sig = progen.dis_signature(case.plain.code, "ops")
     col.distinct("shapes", sig)
@@ -188,7 +191,7 @@ def check_program(col, name, source, meta, metric_sets, scratch, second_oracle, 
                every=sample_every)
 
 
-def shard(col, kind, max_stmts, max_depth, k, nshards, metric_sets, second_oracle):
+def shard(col, kind, min_size, max_size, max_depth, k, nshards, metric_sets, second_oracle=True):
     import shutil
     import tempfile
 
@@ -199,26 +202,41 @@ def shard(col, kind, max_stmts, max_depth, k, nshards, metric_sets, second_oracl
         if kind == "seeds":
             progs = [p for i, p in enumerate(progen.seeds()) if i % nshards == k]
         else:
-            progs = (p for i, p in enumerate(progen.programs(max_stmts, max_depth)) if i % nshards == k)
+            progs = (p for i, p in enumerate(progen.programs(max_size, max_depth))
+                     if i % nshards == k and p[2]["size"] >= min_size)
         for name, source, meta in progs:
             col.count(f"{kind}_programs")
+            if kind != "seeds":
+                col.count(f"grammar_programs_size{meta['size']}[{'|'.join('+'.join(m) for m in metric_sets)}]")
             check_program(col, name, source, meta, metric_sets, scratch, second_oracle)
     finally:
         shutil.rmtree(scratch, ignore_errors=True)
 
 
+def plan(ctx):
+    """Jobs of a tier: (label, [shard args]).  quick: sizes <= 2 and the seeds under every metric set, size 3
+    under the primary metric set only; thorough: sizes <= 3 at depth <= 3 and the seeds under every metric set."""
+    w = max(1, ctx.workers)
+    all_sets = [list(m) for m in METRIC_SETS]
+    jobs = []
+    if ctx.quick:
+        n, d = 3, 2
+        jobs += [("grammar", 3, 3, d, k, 2 * w, all_sets[:1], True) for k in range(2 * w)]
+        jobs += [("grammar", 1, 2, d, k, w // 2 or 1, all_sets, True) for k in range(w // 2 or 1)]
+    else:
+        n, d = 3, 3
+        jobs += [("grammar", 1, 3, d, k, 4 * w, all_sets, True) for k in range(4 * w)]
+    jobs += [("seeds", 0, 0, 0, k, 4, all_sets, True) for k in range(4)]
+    if ctx.seed:
+        r = ctx.seed % len(jobs)
+        jobs = jobs[r:] + jobs[:r]
+    return n, d, jobs
+
+
 def run(ctx):
     from mc import par, progen
 
-    n, d = (3, 2) if ctx.quick else (3, 3)
-    second = ctx.quick
-    nshards = max(1, ctx.workers) * 2
-    order = list(range(nshards))
-    if ctx.seed:
-        order = order[ctx.seed % nshards:] + order[:ctx.seed % nshards]
-    metric_sets = [list(m) for m in METRIC_SETS]
-    jobs = [("grammar", n, d, k, nshards, metric_sets, second) for k in order]
-    jobs += [("seeds", 0, 0, k, 4, metric_sets, True) for k in range(4)]
+    n, d, jobs = plan(ctx)
     par.run_shards("props.c02_line_coverage:shard", jobs, ctx.workers, ctx)
 
     c = ctx.col.counters
@@ -226,6 +244,10 @@ def run(ctx):
     ctx.note("progen_bound", {"max_size": n, "max_depth": d, "programs_in_bound": total,
                               "seeds": len(progen.seeds())})
     ctx.note("metric_sets", ["+".join(m) for m in METRIC_SETS])
+    ctx.note("tier_plan", "sizes<=2 + seeds: all metric sets; size 3: LINE only" if ctx.quick
+             else "sizes<=3 (depth<=3) + seeds: all metric sets")
+    ctx.require(c.get("instrumentation_failures", 0) * 10 <= c.get("modules_loaded", 0),
+                "too many modules could not be instrumented")
     ctx.require(c.get("grammar_programs", 0) == total, f"grammar programs {c.get('grammar_programs')} != {total}")
     ctx.require(c.get("seeds_programs", 0) == len(progen.seeds()), "not every seed was checked")
     ctx.require(c.get("oracle_disagreements", 0) == 0,
@@ -249,7 +271,10 @@ def run(ctx):
                 "reported line set is compared with the interpreter's; non-trivial = distinct bytecode shape "
                 "(dis_signature 'ops') of a program for which two inputs of the menu execute different line sets")
     ctx.assume("CPython 3.12; sys.monitoring LINE events on the uninstrumented code are the reference, validated "
-               "per call against executed-instruction lines from sys.settrace(f_trace_opcodes) in the quick tier")
+               "per call against executed-instruction lines from sys.settrace(f_trace_opcodes)")
+    ctx.assume("programs whose module cannot be loaded under a metric set (CHECKED instrumentation raises on "
+               "`with`) or would crash the interpreter (CHECKED on inlined comprehensions) are skipped for that "
+               "metric set and counted (instrumentation_failures, skipped_checked_on_inlined_comprehension): C01")
     ctx.assume("coverable lines are pynguin's own existing_lines (RESUME / END_FOR lines are not coverable by "
                "design); completeness of that set is checked only for lines that were actually executed")
     ctx.assume("calls whose exception type differs between plain and instrumented run are C01's subject and are "
